@@ -91,7 +91,7 @@ pub fn check_seq(c: &SeqCase) -> CaseResult {
     let mut default_attrs = HA::new(ctl.clone());
     default_attrs.val = c.default_val;
     let default_metric = HM::new(ctl.clone());
-    let mut store: TrackStore<HA, HM, HO, HN> = TrackStore::new(default_metric.clone(), default_attrs.clone(), n.clone(), c.shards);
+    let mut store: QuietDrop<TrackStore<HA, HM, HO, HN>> = QuietDrop::new(TrackStore::new(default_metric.clone(), default_attrs.clone(), n.clone(), c.shards));
     let mut model: Model = BTreeMap::new();
     let mut failed_merge = false;
     let mut add_missing_opt = false;
@@ -433,6 +433,7 @@ pub fn run(env: &Env, rep: &Report) {
     rep.set_rule("operation sequences over add_track, add, fetch_tracks, merge_owned, merge_external(+noblock/get), lookup, find_usable, clear, shard_stats, new_track with ids from a small alphabet (collisions likely), 3 feature classes, shard counts 1..5, harness attribute/metric types with status, compatibility, failing merges and a sorting/truncating/attribute-mutating optimise; exhaustive over all sequences of length <=2 (quick) / <=3 (thorough) of a 39-operation alphabet x shard counts {1,2,3}, random sequences up to 300 operations. Oracle: sequential model; every return value and the full store contents (per shard) compared after every step. Non-trivial: a sequence containing a merge the model rejects, an add that creates a track with a real observation, or a fetch of a partly missing id list; distinct = distinct serialized case");
     rep.assume("empty or absent class list = all classes of the source; what the last optimise call saw is masked only through the model using the same callbacks in list order (class lists are explicit or single-class in the exhaustive alphabet)");
     let alpha = alphabet();
+    stall_watchdog(300);
     let depth = env.tier.pick(2, 3);
     let shard_counts = [1usize, 2, 3];
     let na = alpha.len();
@@ -463,7 +464,27 @@ pub fn run(env: &Env, rep: &Report) {
     });
     rep.set_exhaustive("exhaustive", true);
     rep.note("exhaustive", format!("all sequences of length <= {} over {} operations x shard counts {:?}", depth, na, shard_counts));
-    par_generated(rep, "random", seq_case, env.tier.pick(12_000, 150_000), w, check_seq);
+    // random sequences run in child processes: a store whose worker thread has gone leaves its
+    // caller blocked for ever (lookup, find_usable and the merge handles wait on a channel the
+    // store itself keeps open). An operation on a handful of tracks that does not return within
+    // 30 s in two fresh processes is reported: "returns exactly the tracks ..." includes returning.
+    let pool = IsoPool::new(&env.prop, "random", std::time::Duration::from_secs(30));
+    let check = |c: &SeqCase| -> CaseResult {
+        match pool.eval(c) {
+            Err(f) if f.signature.starts_with("hang@") => {
+                let pool2 = IsoPool::new(&env.prop, "random", std::time::Duration::from_secs(30));
+                match pool2.eval(c) {
+                    Err(f2) if f2.signature.starts_with("hang@") => Err(Fail::new("no-return@store-ops", format!("a store operation of this sequence does not return (no answer within 30 s in two fresh processes; typical sequence: < 10 ms): {}", f2.msg))),
+                    _ => {
+                        rep.mark_inconclusive(format!("a sequence timed out once and completed on re-run: {}", f.msg));
+                        Ok(CaseOk::trivial().label("hang_inconclusive"))
+                    }
+                }
+            }
+            r => r,
+        }
+    };
+    par_generated(rep, "random", seq_case, env.tier.pick(12_000, 150_000), w, &check);
 }
 
 pub fn replay(sub: &str, case: Value) -> Option<CaseResult> {
